@@ -177,8 +177,8 @@ def run(rep, tier, seed):
     lr = [c for c in cases if c.settings[0] == "LR"]
     glr = [c for c in cases if c.settings[0] == "GLR"]
     fixed = lf.replay_known(rep, "C06", oracle)
-    lf.run_cases(lr)
-    lf.run_cases(glr, model=False)
+    lf.run_cases(lr, extra_requests=lambda c: ["cert lexsorted"])
+    lf.run_cases(glr, extra_requests=lambda c: ["cert lexsorted"], parse_model=False)
     check(rep, lr, glr, proofs_ok)
 
 
@@ -192,8 +192,16 @@ def check(rep, lr, glr, proofs_ok):
 
     def scope(c):
         return c.settings[0] == "GLR" or tp.parse_dump(c.dump)["conflicts"] == 0
-    lf.evaluate(rep, lr, oracle, proofs_ok, PROP_MODULE, in_scope=scope)
-    lf.evaluate(rep, glr, oracle, True, PROP_MODULE, compare_model=False)
+    def orc(c):
+        bad = oracle(c)
+        ex = getattr(c, "extra", None)
+        if ex:
+            rep.count("cert_lexsorted_" + ("pass" if ex[0] == "1" else "FAIL"))
+            if ex[0] != "1":
+                bad.append((None, "Lex.sortedOk fails on a state's sorted_terminals list: hypotheses of the C06 theorems not met"))
+        return bad
+    lf.evaluate(rep, lr, orc, proofs_ok, PROP_MODULE, in_scope=scope)
+    lf.evaluate(rep, glr, orc, True, PROP_MODULE, compare_model=False)
     rep.assumptions += ["regex terminals restricted to a class on which python `re` and the Rust `regex` crate agree (literals, classes, "
                         "+ * ?); recognizers matching the empty string are excluded (F14)",
                         "GLR half: oracle on implementation output only"]
@@ -211,5 +219,5 @@ def replay(rep, path):
     c = lf.Case(p["grammar"], p["settings"].split(" "), [(p["settings"].split(" ")[0], "0", p.get("input", ""), {})], gram=None)
     c.lexgram = LexGram(terms)
     glr = c.settings[0] == "GLR"
-    lf.run_cases([c], model=not glr)
+    lf.run_cases([c], extra_requests=lambda c: ["cert lexsorted"], parse_model=not glr)
     check(rep, [] if glr else [c], [c] if glr else [], True)
